@@ -338,6 +338,7 @@ class BaseSection(base.Sectionable):
             self._parent.remove(self)
             self._parent = None
         elif self._validate_parent(new_parent):
+            new_parent._validate_child(self)
             if self._parent is not None:
                 self._parent.remove(self)
             self._parent = new_parent
@@ -517,6 +518,7 @@ class BaseSection(base.Sectionable):
         :param obj: Section or Property object.
         """
         if isinstance(obj, BaseSection):
+            self._validate_child(obj)
             self._sections.append(obj)
             obj._parent = self
         elif isinstance(obj, BaseProperty):
@@ -549,6 +551,9 @@ class BaseSection(base.Sectionable):
                 msg = "odml.Section.extend: Section with name '%s' already exists." % obj.name
                 raise KeyError(msg)
 
+            if isinstance(obj, BaseSection):
+                self._validate_child(obj)
+
             if isinstance(obj, BaseProperty) and obj.name in self.properties:
                 msg = "odml.Section.extend: Property with name '%s' already exists." % obj.name
                 raise KeyError(msg)
@@ -570,6 +575,7 @@ class BaseSection(base.Sectionable):
                 raise ValueError("odml.Section.insert: "
                                  "Section with name '%s' already exists." % obj.name)
 
+            self._validate_child(obj)
             self._sections.insert(position, obj)
             obj._parent = self
         elif isinstance(obj, BaseProperty):
